@@ -257,6 +257,53 @@ Definition feed (l : loader) (chunk : bytes) (fds : N) : loader :=
 Definition feed_all (l : loader) (chunks : list bytes) : loader :=
   fold_left (fun l c => feed l c 0) chunks l.
 
+(* ---- the read limit ------------------------------------------------------
+   _dbus_message_loader_get_buffer: how many bytes the transport may read next and whether
+   descriptors may accompany them.  With no descriptors held the answer is "as much as you like";
+   while descriptors are held the loader asks only for the rest of the message it is in the middle of
+   (first the rest of the 16-byte fixed header, then the rest of header + body), so that bytes of the
+   next message -- and the descriptors travelling with its first byte -- are not read early.
+   [None] = the explicit out-of-fuel result (excluded by Proofs/ReadLimit.v). *)
+Fixpoint max_to_read_loop (fuel : nat) (max : N) (d : bytes) : option (N * bool) :=
+  match fuel with
+  | O => None
+  | S f =>
+      if nlen d =? 0 then Some (DBUS_MAXIMUM_MESSAGE_LENGTH, true)                    (* while (remain > 0) ends *)
+      else if nlen d <? DBUS_MINIMUM_HEADER_SIZE then Some (DBUS_MINIMUM_HEADER_SIZE - nlen d, false)
+      else
+        match have_message max d with
+        | HaveInvalid _ => Some (DBUS_MAXIMUM_MESSAGE_LENGTH, true)
+        | HaveOk _ _ hl bl false => Some (hl + bl - nlen d, false)
+        | HaveOk _ _ hl bl true => max_to_read_loop f max (skipn (N.to_nat (hl + bl)) d)   (* skip an entire message *)
+        end
+  end.
+
+Definition max_to_read (l : loader) : option (N * bool) :=
+  if l_fds l =? 0 then Some (DBUS_MAXIMUM_MESSAGE_LENGTH, true)
+  else max_to_read_loop (S (length (l_buf l))) (l_max l) (l_buf l).
+
+(* the socket transport's use of it (do_reading): ask for the limit, read at most that much of what
+   the peer has written, hand it to the loader, queue messages, stop at corruption; descriptors
+   arrive with the first read.  A limit of 0 with data outstanding is a stall (a 0-byte read is
+   taken for end-of-file by the transport): reported as [inr l].  Out of fuel is [inr] too. *)
+Fixpoint feed_limited (fuel : nat) (l : loader) (chunk : bytes) (fds : N) : loader + loader :=
+  match chunk with
+  | [] => inl l
+  | _ =>
+      match fuel with
+      | O => inr l
+      | S f =>
+          if l_corrupted l then inl l
+          else match max_to_read l with
+               | None => inr l
+               | Some (mx, _) =>
+                   if mx =? 0 then inr l
+                   else let k := N.to_nat (N.min mx (nlen chunk)) in
+                        feed_limited f (feed l (firstn k chunk) fds) (skipn k chunk) 0
+               end
+      end
+  end.
+
 (* dbus_message_demarshal: corrupt / first message / nothing complete (reported as OOM by the C code) *)
 Inductive demarshal_res := DemCorrupt (r : Z) | DemMsg (m : message) | DemIncomplete.
 Definition demarshal (d : bytes) : demarshal_res :=
